@@ -7,7 +7,7 @@ CONSTANTS
   Ks = {0, 1, 2}
   Fmts = {"bc_idx"}
   NFiles = {1}
-  Lazy = {FALSE, TRUE}
+  Lazy = {"none", "other", "this", "star"}
   Touches = {"lookup", "getitem"}
   Variant = "design"
 INVARIANT TypeOK
